@@ -30,12 +30,64 @@ def load_known():
     return json.load(open(KNOWN_FILE))["findings"]
 
 
+def callees(q):
+    """Contracted functions syntactically called from the body of q (current /repo source)."""
+    import ast as _ast
+    from pyvc import prove
+    repo = prove.get_repo()
+    if q not in repo.funcs:
+        return set()
+    node, mod, cls = repo.funcs[q]
+    out = set()
+    for n in _ast.walk(node):
+        if isinstance(n, _ast.Call):
+            f = n.func
+            name = f.id if isinstance(f, _ast.Name) else (f.attr if isinstance(f, _ast.Attribute) else None)
+            if name is None:
+                continue
+            for cand in (f"{mod}.{name}", f"api.{name}", f"api.Converter.{name}", f"api.Record.{name}"):
+                if cand in spec.CONTRACTS and cand != q:
+                    out.add(cand)
+        if isinstance(n, _ast.Attribute):
+            for cand in (f"api.Converter.{n.attr}", f"api.Record.{n.attr}"):
+                if cand in spec.CONTRACTS and cand != q and isinstance(getattr(repo.funcs.get(cand, (None,))[0], "decorator_list", None), list) \
+                        and any(isinstance(d, _ast.Name) and d.id == "property" for d in repo.funcs[cand][0].decorator_list):
+                    out.add(cand)
+    return out
+
+
 def cone(prop):
+    """Contracts and lemmas tagged with the property, closed under the call graph: a property depends on
+    every contracted function its functions call (their contracts are what the callers' proofs use)."""
     loader.load()
     items = []
-    for q, ci in spec.CONTRACTS.items():
-        if prop in ci.opts.get("props", []):
-            items.append(("contract", q, ci.opts))
+    direct = [q for q, ci in spec.CONTRACTS.items() if prop in ci.opts.get("props", [])]
+    seen = list(direct)
+    work = list(direct)
+    while work:
+        q = work.pop()
+        for c in sorted(callees(q)):
+            if c not in seen:
+                seen.append(c)
+                work.append(c)
+    # lemmas call API functions: include those too
+    lem = [(n, li) for n, li in spec.LEMMAS.items() if prop in li.opts.get("props", [])]
+    import ast as _ast
+    for n, li in lem:
+        for sub in _ast.walk(loader.LEMMA_AST[n]):
+            if isinstance(sub, _ast.Call) and isinstance(sub.func, _ast.Attribute):
+                cand = f"api.Converter.{sub.func.attr}"
+                if cand in spec.CONTRACTS and cand not in seen:
+                    seen.append(cand)
+                    work.append(cand)
+    while work:
+        q = work.pop()
+        for c in sorted(callees(q)):
+            if c not in seen:
+                seen.append(c)
+                work.append(c)
+    for q in seen:
+        items.append(("contract", q, spec.CONTRACTS[q].opts))
     for n, li in spec.LEMMAS.items():
         if prop in li.opts.get("props", []):
             items.append(("lemma", n, li.opts))
@@ -312,6 +364,41 @@ GLOBAL_TRUSTED = [
 ]
 
 
+def run_selftest(tier, seed):
+    """Soundness self-test: every lemma marked expect='fail' must NOT be provable."""
+    from pyvc import prove
+    loader.load()
+    bad = 0
+    n = 0
+    for name, li in spec.LEMMAS.items():
+        if li.opts.get("expect") != "fail":
+            continue
+        n += 1
+        try:
+            pr = prove.prove_item("lemma", name, "quick", seed)
+            ok = bool(pr.failed)
+        except prove.Demoted as d:
+            ok = True
+        print(f"selftest {name}: {'not provable (good)' if ok else 'PROVED A FALSE LEMMA'}")
+        bad += 0 if ok else 1
+    print(f"selftest: {n} false lemmas, {bad} wrongly proved")
+    return 3 if bad or not n else 0
+
+
+def rebaseline():
+    from pyvc import prove
+    loader.load()
+    repo = prove.get_repo()
+    out = {}
+    for q in spec.CONTRACTS:
+        if q in repo.funcs:
+            out[q] = prove.func_hash(repo, q)
+    os.makedirs(os.path.dirname(prove.BASELINE), exist_ok=True)
+    json.dump(out, open(prove.BASELINE, "w"), indent=1, sort_keys=True)
+    print(f"baseline written: {len(out)} function hashes")
+    return 0
+
+
 def main(argv=None):
     ap = argparse.ArgumentParser()
     ap.add_argument("prop", nargs="?")
@@ -331,6 +418,10 @@ def main(argv=None):
         for n, li in sorted(spec.LEMMAS.items()):
             print("lemma", n, li.opts.get("props"))
         return 0
+    if a.prop == "selftest":
+        return run_selftest(a.tier, seed)
+    if a.prop == "rebaseline":
+        return rebaseline()
     try:
         return run_property(a.prop, a.tier if a.tier in ("quick", "thorough") else "quick", seed)
     except SystemExit:
